@@ -116,7 +116,6 @@ TAIL_KINDS = REPARAM_KINDS + ("beta_implicit",)  # TailCallADEVPrimitive subclas
 
 GEOM_MAX = 120
 N_GH = 32
-N_LAG = 64
 
 
 def prim_class(prim):
@@ -343,7 +342,7 @@ class Grid:
         elif kind == "expo_reinforce":
             rate = link_pos(us[0])
             if fx is None:
-                z, w = _lag(N_LAG)
+                z, w = _lag(2 * n)
                 x = z / rate
             else:
                 x, w = np.array([fx[1][0]]) + 0 * rate, np.ones(1)
@@ -1218,8 +1217,10 @@ def run(ctx):
     ctx.extra["z_tests"] = STATS["z_tests"]
     ctx.extra["z_escalations"] = STATS["escalations"]
     ctx.extra["perkey_checks"] = STATS["perkey_checks"]
-    ctx.extra[f"max_err_over_tol_shard{ctx.shard:02d}"] = round(STATS["max_err_over_tol"], 4)
-    ctx.extra[f"max_first_stage_z_shard{ctx.shard:02d}"] = round(STATS["max_abs_z"], 3)
+    r = STATS["max_err_over_tol"]
+    ctx.count("shard-max |diff|/tol " + ("< 1%" if r < 0.01 else "< 10%" if r < 0.1 else ">= 10%"))
+    zmax = STATS["max_abs_z"]
+    ctx.count("shard-max first-stage z " + ("< 4" if zmax < 4 else "< 7" if zmax < 7 else ">= 7 (escalated)"))
     ctx.extra["tolerances"] = f"exact/pathwise: |diff| <= {RTOL}*|expected| + {ATOL}*(1+E|terms|)*(1+|dir|_1); same-key relations rtol 2e-4; z threshold {Z} at N and 8N"
 
 
